@@ -134,6 +134,28 @@ fn codec_roundtrip(ctx: &mut Ctx, key: u64, lens: &[usize]) {
         && items.len() == 1
         && items[0] == LItem::Message(frames.clone())
         && d.buf.is_empty();
+    // the same bytes arriving in small pieces (the decoder is resumable: what it returns must
+    // not depend on where reads end) - byte at a time for small messages, 7-byte reads beyond
+    let step = if bytes.len() <= 2048 { 1 } else { 4093 };
+    let mut d2 = LibDecoder::primed();
+    let mut items2 = Vec::new();
+    for c in bytes.chunks(step) {
+        items2.extend(d2.feed(c));
+    }
+    ctx.count("codec_messages_redecoded_in_pieces");
+    if ok && (d2.failed.is_some() || items2 != items || !d2.buf.is_empty()) {
+        ctx.violation_with(
+            "C01/library-roundtrip",
+            format!(
+                "library decode of its own encoding of {lens:?} fed in {step}-byte reads: error={:?} items={:?} leftover={}",
+                d2.failed,
+                items2.iter().map(|i| i.summary()).collect::<Vec<_>>(),
+                d2.buf.len()
+            ),
+            witness.clone(),
+        );
+        return;
+    }
     if !ok {
         ctx.violation_with(
             "C01/library-roundtrip",
@@ -452,13 +474,14 @@ impl Prop for C01 {
 
     fn cases(&self, tier: Tier, seed: u64) -> Vec<Value> {
         let mut v = Vec::new();
-        let maxn = tier.pick(3, 4);
+        let maxn = 4;
+        let _ = tier;
         for n in 1..=maxn {
             for first in 0..GRID.len() {
                 v.push(json!({"kind": "grid", "n": n, "first": first}));
             }
         }
-        let (batches, per) = tier.pick((20, 10), (250, 20));
+        let (batches, per) = tier.pick((40, 10), (250, 20));
         for b in 0..batches {
             v.push(json!({"kind": "rand", "seed": seed, "batch": b, "n": per}));
         }
@@ -550,7 +573,7 @@ impl Prop for C01 {
 
     fn floors(&self, _tier: Tier) -> Vec<(&'static str, u64)> {
         vec![
-            ("codec_messages", 1400),
+            ("codec_messages", 16_000),
             ("socket_messages", 200),
             ("handshakes_judged", 36),
             ("frames_len_0", 10),
